@@ -128,39 +128,9 @@ def exHeader : headerTy.Val :=
     (List.replicate 32 4 : Bytes), (6 : UInt32), (7 : UInt32), (8 : UInt64), ([9] : Bytes), (List.replicate 20 0 : Bytes)),
    ([exKey] : List Bytes), ([[1, 2]] : List Bytes))
 
-theorem exSig_wf : sigTy.WF exK ((([[5, 6]] : List Bytes), ([exKey] : List Bytes), (1 : UInt16))) := by
-  refine ⟨⟨by decide, by decide, by decide, by simp, by simp, ?_⟩, ⟨by decide, by decide, by decide, by simp, by simp, ?_⟩, trivial, rfl⟩
-  · intro x hx
-    have := List.eq_of_mem_singleton hx
-    subst this
-    exact ⟨by decide, rfl⟩
-  · intro x hx
-    have := List.eq_of_mem_singleton hx
-    subst this
-    exact ⟨⟨by decide, by decide⟩, rfl⟩
+example : txTy.WF exK exTx ∧ (txTy.enc exTx).length ≤ MAX_TX_SIZE :=
+  ⟨Ty.wfb_sound exK txTy exTx (by decide), by decide⟩
 
-example : txTy.WF exK exTx ∧ (txTy.enc exTx).length ≤ MAX_TX_SIZE := by
-  refine ⟨⟨?_, ?_⟩, by decide⟩
-  · exact ⟨⟨trivial, rfl⟩, ⟨trivial, rfl⟩, ⟨trivial, rfl⟩, ⟨trivial, rfl⟩, ⟨trivial, rfl⟩, ⟨trivial, rfl⟩, ⟨by decide, rfl⟩,
-      ⟨by decide, rfl⟩, ⟨by decide, rfl⟩, ⟨trivial, rfl⟩⟩
-  · refine ⟨by decide, by decide, by decide, by simp [sigsTy], by simp [sigsTy], ?_⟩
-    intro x hx
-    have := List.eq_of_mem_singleton hx
-    subst this
-    exact exSig_wf
-
-example : headerTy.WF exK exHeader := by
-  refine ⟨?_, ⟨by decide, by decide, by decide, by simp [bookkeepersTy], by simp [bookkeepersTy], ?_⟩,
-    ⟨by decide, by decide, by decide, by simp [sigDataTy], by simp [sigDataTy], ?_⟩⟩
-  · exact ⟨⟨trivial, rfl⟩, ⟨trivial, rfl⟩, ⟨by decide, rfl⟩, ⟨by decide, rfl⟩, ⟨by decide, rfl⟩, ⟨by decide, rfl⟩,
-      ⟨trivial, rfl⟩, ⟨trivial, rfl⟩, ⟨trivial, rfl⟩, ⟨by decide, rfl⟩, ⟨by decide, rfl⟩⟩
-  · intro x hx
-    have := List.eq_of_mem_singleton hx
-    subst this
-    exact ⟨⟨by decide, by decide⟩, rfl⟩
-  · intro x hx
-    have := List.eq_of_mem_singleton hx
-    subst this
-    exact ⟨by decide, rfl⟩
+example : headerTy.WF exK exHeader := Ty.wfb_sound exK headerTy exHeader (by decide)
 
 end Poly.Props.C02
